@@ -76,7 +76,7 @@ pub fn cases() -> Vec<CorpusCase> {
             if shape == 3 {
                 indexes.push(IndexDef { name: "empty".into(), store: 0, offset: n_items as u32, count: 0 });
             }
-            let dir = DirCase { seed: rng.next(), vstores: vec![indexed, !indexed], stores: vec![files, misc], indexes, defer: 0 };
+            let dir = DirCase { seed: rng.next(), vstores: vec![indexed, !indexed], stores: vec![files, misc], indexes, defer: 0, free: 0 };
             let extra = if shape == 1 && pkg != Pkg::OneFile {
                 vec![ContentCase { seed: rng.next(), comp: Comp::None, cached: false, items: vec![Item { len: 77, ent: Ent::High, hint: Hint::No, src: Src::Mem, dup_of: None, cat_of: None }, Item { len: 900, ent: Ent::Low4, hint: Hint::Yes, src: Src::Mem, dup_of: None, cat_of: None }] }]
             } else {
